@@ -82,6 +82,29 @@ theorem C18_transitions (conv : Nat → Nat) (rows : List TRow) (hb : ∀ r ∈ 
       loadTransitions conv ((saveTransitions rows).take k) = loadTransitions conv (saveTransitions rows) :=
   Or.inl (C18_transitions_fails conv rows hb k hk)
 
+/-- the statement with the table itself: for every canonical blueprint `t`, every enumeration `rows`
+    of it and every cut `k`, the loader fails or returns exactly `t` -/
+theorem C18_blueprint_table (t : PMap) (hw : WFP t) (hkeys : KeysOK t) (rows : List PRow)
+    (hb : ∀ r ∈ rows, PRow.ok r) (hm : ∀ r, r ∈ rows ↔ r ∈ t.rows)
+    (k : Nat) (hk : k < (saveBlueprint rows).length) :
+    loadBlueprint ((saveBlueprint rows).take k) = none ∨ loadBlueprint ((saveBlueprint rows).take k) = some t := by
+  rw [← C17_roundtrip_blueprint t hw hkeys rows hb hm]
+  exact C18_blueprint rows hb k hk
+
+theorem C18_metric_table (t : KV) (ht : Sorted t) (rows : List MRow) (hb : ∀ r ∈ rows, MRow.ok r)
+    (hm : ∀ p, p ∈ rows.map (fun r => (r.xor, r.dx)) ↔ p ∈ t)
+    (k : Nat) (hk : k < (saveMetric rows).length) :
+    loadMetric ((saveMetric rows).take k) = none ∨ loadMetric ((saveMetric rows).take k) = some t := by
+  rw [← C17_roundtrip_metric t ht rows hb hm]
+  exact C18_metric rows hb k hk
+
+theorem C18_lookup_table (t : KV) (ht : Sorted t) (rows : List LRow) (hb : ∀ r ∈ rows, LRow.ok r)
+    (hm : ∀ p, p ∈ rows.map (fun r => (r.obs, r.abs)) ↔ p ∈ t)
+    (k : Nat) (hk : k < (saveLookup rows).length) :
+    loadLookup ((saveLookup rows).take k) = none ∨ loadLookup ((saveLookup rows).take k) = some t := by
+  rw [← C17_roundtrip_lookup t ht rows hb hm]
+  exact C18_lookup rows hb k hk
+
 /-- the complete file does load (so the theorems above are not about a loader that always fails) -/
 theorem C18_complete_loads_transitions (conv : Nat → Nat) (rows : List TRow) (hb : ∀ r ∈ rows, TRow.ok r) :
     loadTransitions conv (saveTransitions rows)
@@ -95,7 +118,7 @@ example : (saveMetric [⟨3, 7⟩, ⟨5, 0x3f800000⟩]).length = 65 := by decid
 example : (List.range 65).all (fun k => loadMetric ((saveMetric [⟨3, 7⟩, ⟨5, 0x3f800000⟩]).take k) == none) = true := by
   decide +kernel
 example : loadMetric (saveMetric [⟨3, 7⟩, ⟨5, 0x3f800000⟩]) = some [(3, 7), (5, 0x3f800000)] := by decide +kernel
-example : loadTransitions (fun w => w / 2) ((saveTransitions [⟨1, 2, 8⟩]).take 55) = none := by decide +kernel
+example : loadTransitions (fun w => w / 2) ((saveTransitions [⟨1, 2, 8⟩]).take 54) = none := by decide +kernel
 example : loadTransitions (fun w => w / 2) (saveTransitions [⟨1, 2, 8⟩]) = some [(1, (4, [(2, 4)]))] := by decide +kernel
 
 /-! ## the pinned loaders (trailer optional): a cut at a row boundary loads short -/
